@@ -239,7 +239,7 @@ prop("C31",
 
 
 prop("C19",
-     units=["numsign", "numparse"],
+     units=["numsign", "numparse", "entrystyle"],
      level="proof",
      claim="recognition slice (parse_number, the character scanner behind every typed number, verbatim up to the final str::parse): a text is accepted only if its group separators are "
            "correctly placed — each after at least one digit, followed by whole groups of three digits (at least one), never two in a row (well_grouped) — and only if the scan "
